@@ -615,3 +615,20 @@ impl Lcg {
     }
 }
 
+/// A scratch directory under the system temp dir, removed on drop.
+pub struct TmpDir(pub std::path::PathBuf);
+impl TmpDir {
+    pub fn new(tag: &str) -> TmpDir {
+        static N: std::sync::atomic::AtomicU64 = std::sync::atomic::AtomicU64::new(0);
+        let n = N.fetch_add(1, std::sync::atomic::Ordering::SeqCst);
+        let p = std::env::temp_dir().join(format!("hv-{}-{}-{}", tag, std::process::id(), n));
+        let _ = std::fs::remove_dir_all(&p);
+        std::fs::create_dir_all(&p).unwrap();
+        TmpDir(p)
+    }
+}
+impl Drop for TmpDir {
+    fn drop(&mut self) {
+        let _ = std::fs::remove_dir_all(&self.0);
+    }
+}
